@@ -651,7 +651,7 @@ fn proxy_kinds(tier: Tier) -> Vec<&'static str> {
 
 fn np_menu(tier: Tier) -> Vec<Option<String>> {
     let v: Vec<Option<&str>> = match tier {
-        Tier::Quick => vec![None, Some(""), Some("*"), Some(".a"), Some(" A , b.a "), Some("a,,b")],
+        Tier::Quick => vec![None, Some(""), Some("*"), Some(".a"), Some(" A , b.a "), Some("a,,b"), Some("b, .a")],
         Tier::Thorough => vec![
             None,
             Some(""),
@@ -665,6 +665,8 @@ fn np_menu(tier: Tier) -> Vec<Option<String>> {
             Some("b,*"),
             Some(" * "),
             Some("b.a,"),
+            Some("b, .a"),
+            Some(" .b.a ,c"),
         ],
     };
     v.into_iter().map(|o| o.map(|s| s.to_string())).collect()
